@@ -686,6 +686,8 @@ fn key_types(thorough: bool) -> Vec<(&'static str, &'static str, KeyType, bool, 
         ("ed25519legacy", "m", KeyType::Ed25519Legacy, true, false),
         ("ecdh-cv25519", "m", KeyType::ECDH(ECCCurve::Curve25519Legacy), true, false),
         ("ecdh-p256", "m", KeyType::ECDH(ECCCurve::P256), true, true),
+        ("ecdh-cv25519-kdfalt", "m", KeyType::ECDH(ECCCurve::Curve25519Legacy), true, false),
+        ("ecdh-p256-kdfalt", "m", KeyType::ECDH(ECCCurve::P256), true, true),
         ("ecdsa-p256", "m", KeyType::ECDSA(ECCCurve::P256), true, true),
         ("ecdsa-p384", "m", KeyType::ECDSA(ECCCurve::P384), true, true),
         ("ecdsa-p521", "m", KeyType::ECDSA(ECCCurve::P521), true, true),
@@ -710,7 +712,22 @@ fn make_fixtures(ctx: &mut Ctx) -> Vec<KeyFix> {
             }
             let created: u32 = 0x5f00_0000 + ctx.rng.gen_range(0..0x00ff_ffff);
             let r = guarded(|| {
-                let (pubp, sec) = kt.generate(&mut ctx.rng).ok()?;
+                let (mut pubp, sec) = kt.generate(&mut ctx.rng).ok()?;
+                // ECDH keys carry their KDF parameters (hash, key-wrap cipher) in the public part: the
+                // generator always writes the per-curve defaults; other legal pairs (GnuPG's P-384
+                // default AES-256, SHA-512 ...) must lock and unlock just the same
+                if name.ends_with("-kdfalt") {
+                    use pgp::types::EcdhPublicParams as E;
+                    if let PublicParams::ECDH(e) = &mut pubp {
+                        match e {
+                            E::Curve25519Legacy { hash, alg_sym, .. } | E::P256 { hash, alg_sym, .. } | E::P384 { hash, alg_sym, .. } | E::P521 { hash, alg_sym, .. } => {
+                                *hash = HashAlgorithm::Sha512;
+                                *alg_sym = SymmetricKeyAlgorithm::AES256;
+                            }
+                            _ => {}
+                        }
+                    }
+                }
                 let SecretParams::Plain(ref plain) = sec else { return None };
                 let plain = plain.clone();
                 let alg = kt.to_alg();
@@ -1673,6 +1690,32 @@ pub fn run(ctx: &mut Ctx) {
 
     // ---- 3. keys built by the harness from the RFC layout: 253, 254, 255, legacy cipher octets
     let mut wire_locked: Vec<(usize, Locked)> = Vec::new();
+    // ---- components locked one after the other on the same thread under ONE S2K specifier (same salt)
+    //      and one password but different ciphers, as other implementations write whole TSKs: each
+    //      derivation stands on its own (a longer key first, then a shorter one, and the reverse)
+    {
+        let fa = fixtures.iter().find(|f| f.name == "ed25519" && f.ver == 6).cloned();
+        let fb = fixtures.iter().find(|f| f.name == "x25519" && f.ver == 6).cloned();
+        if let (Some(fa), Some(fb)) = (fa, fb) {
+            for (sa, sb, kind) in [(9u8, 7u8, 3usize), (8, 7, 3), (7, 9, 3), (9, 7, 2), (7, 8, 2)] {
+                let s2k = gen_s2k(ctx, kind, 8);
+                let mode = 2u8;
+                let hp_a = HP { var: 2, sym: sa, mode, s2k: s2k.clone(), iv: gen_iv(ctx, own_nonce_size(mode)) };
+                let hp_b = HP { var: 2, sym: sb, mode, s2k, iv: gen_iv(ctx, own_nonce_size(mode)) };
+                let pw = b"one password, one specifier".to_vec();
+                let la = lock_case(ctx, &fa, 5, &hp_a, &pw);
+                let lb = lock_case(ctx, &fb, 7, &hp_b, &pw);
+                if let (Some(la), Some(lb)) = (la, lb) {
+                    for l in [&lb, &la, &lb] {
+                        let fix = if l.tag == 5 { &fa } else { &fb };
+                        let u = unlock_case(ctx, (fix.ver, fix.fmt), l.tag, &l.hp, &pw, &l.key, &l.blob, &fix.pub_body, "shared_specifier");
+                        ctx.oracle("lock_unlock_roundtrip", "SecretKey::unlock after another component was derived under the same S2K specifier", &format!("{} sym={} then sym={} s2k={}", fix.name, sa, sb, l.hp.s2k.kind()), matches!(&u, Ok(Ok(m)) if *m == fix.raw), &short(&ans_unlock(&u)));
+                    }
+                }
+                ctx.stat("shared_specifier");
+            }
+        }
+    }
     for (fi, fix) in fixtures.clone().iter().enumerate() {
         let heavy = fix.name.starts_with("rsa") || fix.name.starts_with("dsa");
         let kinds: &[usize] = if heavy { &[2] } else { &[0, 1, 2] };
